@@ -6,6 +6,7 @@ import Tahoe.Base.Merkle
     Lines:
       idx <len> <parent|lchild|rchild|sibling|needed_for|depth_of> <i>   -> number | list | err
       dfs <len>                                                          -> i:d,i:d,…
+      name <len> <first_leaf_num> <i>                                    -> _name_hash(i)
       rup <x>                                                            -> roundup_pow2(x)
       build <leaf,leaf,…|->                                             -> <first_leaf_num> <tree>
       cneeded <numleaves> <leafnum> <0|1>                                -> HashTree.needed_hashes (sorted) | err
@@ -93,21 +94,19 @@ def pickOf (prio : List Nat) (this : List Nat) : Nat :=
 def showBatchOutcome : BatchOutcome → String
   | .ok => "ok" | .err o => showOutcome o | .unvalidatable => "reject"
 
-def runCall (cfg : Cfg) (first : Nat) (t : Tree Sym) (call : String) : Option (BatchOutcome × Tree Sym) :=
+def parseCall (call : String) : Option (Batch Sym) :=
   match call.splitOn "|" with
   | [p, h, l] => do
     let prio ← parseNatList p
     let hs ← parseAssoc h
     let ls ← parseAssoc l
-    pure (setHashesZ symOps cfg (pickOf prio) first t hs ls)
+    pure { pick := pickOf prio, hashes := hs, leaves := ls }
   | _ => none
 
-def runHist (cfg : Cfg) (first : Nat) (t : Tree Sym) (acc : List String) : List String → Option (List String)
-  | [] => some acc.reverse
-  | c :: rest =>
-    match runCall cfg first t c with
-    | none => none
-    | some (o, t') => runHist cfg first t' ((showBatchOutcome o ++ ":" ++ showTree t') :: acc) rest
+/-- the whole history through the model's `runBatches` -/
+def runHist (cfg : Cfg) (first : Nat) (t : Tree Sym) (calls : List String) : Option (List String) := do
+  let bs ← calls.mapM parseCall
+  pure ((runBatches symOps cfg first t bs).map (fun r => showBatchOutcome r.1 ++ ":" ++ showTree r.2))
 
 def parseBool (s : String) : Option Bool :=
   if s == "0" then some false else if s == "1" then some true else none
@@ -128,6 +127,10 @@ def handle : List String → String
     match len.toNat? with
     | some len => ",".intercalate ((depthFirst len).map (fun p => s!"{p.1}:{p.2}"))
     | none => "bad-op"
+  | ["name", len, first, i] =>
+    match len.toNat?, first.toNat?, i.toNat? with
+    | some len, some first, some i => nameHash len first i
+    | _, _, _ => "bad-op"
   | ["rup", x] => match x.toNat? with | some x => toString (roundupPow2 x) | none => "bad-op"
   | ["build", ls] =>
     match parseTerms ls with
@@ -161,7 +164,7 @@ def handle : List String → String
     let cfg? : Option Cfg := if mode == "asis" then some Cfg.asIs else if mode == "fixed" then some Cfg.repaired else none
     match cfg?, n.toNat? with
     | some cfg, some n =>
-      (match runHist cfg (firstLeafNum n) (newTree Sym n) [] calls with
+      (match runHist cfg (firstLeafNum n) (newTree Sym n) calls with
        | some outs => if outs.isEmpty then "-" else ";".intercalate outs
        | none => "bad-op")
     | _, _ => "bad-op"
